@@ -796,7 +796,7 @@ rc::Gen<GProg> gen_prog(const std::vector<int>& kinds, int max_ops)
     auto thr  = rc::gen::resize(max_ops, rc::gen::container<std::vector<Op>>(cop));
     auto thr1 = rc::gen::suchThat(thr, [](const std::vector<Op>& v) { return !v.empty(); });
     return rc::gen::build<GProg>(
-        rc::gen::set(&GProg::kind, rc::gen::elementOf(kinds)), rc::gen::set(&GProg::types, weighted<int>({{5, 0}, {1, 1}})),
+        rc::gen::set(&GProg::kind, rc::gen::elementOf(kinds)), rc::gen::set(&GProg::types, weighted<int>({{5, 0}, {1, 1}, {3, 2}})),
         rc::gen::set(&GProg::cap, weighted<int>({{3, 1}, {5, 2}, {3, 3}})), rc::gen::set(&GProg::extra, weighted<int>({{3, 1}, {3, 2}})),
         rc::gen::set(&GProg::ttl, weighted<int>({{1, 0}, {2, 1}, {4, 2}, {6, 3}, {4, 5}, {2, 1000}})), rc::gen::set(&GProg::tick, weighted<int>({{3, 1}, {3, 2}, {2, 5}})),
         rc::gen::set(&GProg::ratio_idx, uni_int(0, 4)), rc::gen::set(&GProg::seed, uni_int(1, 65535)),
